@@ -248,6 +248,25 @@ Fixpoint s_omit (t : tree) (pars : list bytes) (ms : list member) (ops : list op
     end && s_omit t pars ms r
   end.
 
+(* 11. "exactly": every member has a source -- it is recorded for a selected package, a symlink of
+       the tree the tool looks at, a VDB entry of a selected package, a static /dev name, named by a
+       built-in or user line, the parent of such a name, or the root of the archive *)
+Definition op_all_targets (t : tree) (o : op) : list bytes :=
+  match o with OAdd li => targets t li | _ => [] end.
+Definition sources_gen (mops sops : list op) (statn : list bytes) (i : input) (uops : list op) : list bytes :=
+  let t := i_tree i in
+  flat_map contents_names (selected (i_pkgs i))
+  ++ link_candidates t
+  ++ (if i_novdb i then [] else flat_map (fun p => targets t (li_vdb (p_dir p))) (selected (i_pkgs i)))
+  ++ (if i_emptydev i then [] else statn)
+  ++ flat_map (op_all_targets t) mops ++ flat_map (op_all_targets t) sops ++ flat_map (op_all_targets t) uops.
+Definition sources := sources_gen magic_ops stddir_ops static_names.
+Definition s_sourced_gen (src : list bytes) (ms : list member) : bool :=
+  let srcp := flat_map nrparents src in
+  forallb (fun x => let k := key x in
+                    if memb k src then true else if feq k root_path then true else memb k srcp) ms.
+Definition s_sourced (i : input) (uops : list op) (ms : list member) : bool := s_sourced_gen (sources i uops) ms.
+
 Definition spec_ok (i : input) (ls : list bytes) (ms : list member) : bool :=
   let uops := user_ops i in
   let pars := member_parents ms in
@@ -255,7 +274,7 @@ Definition spec_ok (i : input) (ls : list bytes) (ms : list member) : bool :=
   && list_beq feq ls (map key ms)
   && s_pkgfiles i uops ms && s_vdb_in i uops ms && s_std_dirs uops ms && s_static_in i uops ms
   && s_user (i_tree i) ms uops && s_unselected i uops ms && s_omit (i_tree i) pars ms uops
-  && s_vdb_out i uops pars ms && s_static_out i uops pars ms.
+  && s_vdb_out i uops pars ms && s_static_out i uops pars ms && s_sourced i uops ms.
 
 (* a run ends with an archive or with a refusal (exit status 1, nothing written); it never crashes *)
 Definition spec (c : case) (o : obs) : bool :=
